@@ -24,6 +24,8 @@ NUMBER_VALUES = [0, 1, -1, 0.5, -0.5, 12.2625, -12.2625, 359.9999, 100, 1e-3, 12
 
 
 def gen_value(rng, kind, e=None):
+    if kind in ("Text", "Number", "BLOB") and rng.random() < 0.05:
+        return None            # "unset": a driver may clear a value
     if kind == "Text":
         return G.gen_string(rng, allow_empty=False)
     if kind == "Number":
